@@ -199,7 +199,7 @@ type scenario struct {
 // a hyperlink whose text tries to end the OSC 8 string and go on with commands (C09 only)
 var styleHostileURL = shadow.StyleD{Fg: tcell.ColorRed, URL: "http://h/\x1b\\\x1b[?5h\a", URLI: "i\x07d"}
 
-func init() { styles = append(styles, styleULViaAttr, styleHostileURL) }
+func init() { styles = append(styles, styleULViaAttr) }
 
 func scenarios() []scenario {
 	var out []scenario
@@ -817,6 +817,7 @@ func runeClass(r rune) string {
 
 func c09Scenarios() []scenario {
 	show := op{kind: "show"}
+	styles = append(styles, styleHostileURL) // (C09 only: the display comparison of C01 would need the sanitised form)
 	ops := []op{
 		{kind: "set", x: 0, r: 'e', comb: []rune{0x0301, 0x200d}}, {kind: "set", x: 1, r: 'a', comb: []rune{0x0300, 0x0301, 0x0302, 0x0303}},
 		{kind: "set", x: 2, r: '世', comb: []rune{0x0301}}, {kind: "set", x: 1, r: 'x', st: 10}, {kind: "set", x: 0, r: 'y', st: 11}, {kind: "set", x: 2, r: 'z', st: 12},
